@@ -2,7 +2,7 @@
 
    A PAFScorer / BottomUpInferenceModel is built once and then scores a whole run of batches
    whose frames may have different sizes; the ideal maps of every frame are written on a
-   sampling grid that is rebuilt for that frame.  Faithful to the code as it is:
+   sampling grid that is rebuilt for that frame.  Faithful to the current tree (/repo HEAD; F24 is a known finding of it):
 
    sleap_nn/inference/paf_grouping.py
      score_paf_lines_batch : max_edge_length = max_edge_length_ratio
